@@ -149,6 +149,10 @@ class _ParseTreeProcessor(parsimonious.NodeVisitor):
         assert self._current_line_number > 0
         return self._current_line_number
 
+    def _get_first_line_number(self, statement_node: _Node) -> int:
+        """The line where the statement begins; it may span several lines if it contains a multi-line string literal."""
+        return self.current_line_number - statement_node.text.count("\n")
+
     # Misc. helpers
     def _flush_comment(self) -> None:
         if self._comment_is_header:
@@ -194,20 +198,20 @@ class _ParseTreeProcessor(parsimonious.NodeVisitor):
         self._comment += "\n" if self._comment != "" else ""
         self._comment += node.text[2:] if node.text.startswith("# ") else node.text[1:]
 
-    def visit_statement_constant(self, _n: _Node, children: _Children) -> None:
+    def visit_statement_constant(self, node: _Node, children: _Children) -> None:
         constant_type, _sp0, name, _sp1, _eq, _sp2, exp = children
         assert isinstance(constant_type, _serializable.SerializableType) and isinstance(name, str) and name
         assert isinstance(exp, _expression.Any)
         self._flush_comment()
         self._statement_stream_processor.on_constant(constant_type, name, exp)
-        self._last_attribute_line_number = self.current_line_number
+        self._last_attribute_line_number = self._get_first_line_number(node)
 
-    def visit_statement_field(self, _n: _Node, children: _Children) -> None:
+    def visit_statement_field(self, node: _Node, children: _Children) -> None:
         field_type, _space, name = children
         assert isinstance(field_type, _serializable.SerializableType) and isinstance(name, str) and name
         self._flush_comment()
         self._statement_stream_processor.on_field(field_type, name)
-        self._last_attribute_line_number = self.current_line_number
+        self._last_attribute_line_number = self._get_first_line_number(node)
 
     def visit_statement_padding_field(self, _n: _Node, children: _Children) -> None:
         void_type = children[0]
@@ -221,20 +225,20 @@ class _ParseTreeProcessor(parsimonious.NodeVisitor):
         self._comment_is_header = True  # Allow response header comment
         self._statement_stream_processor.on_service_response_marker()
 
-    def visit_statement_directive_with_expression(self, _n: _Node, children: _Children) -> None:
+    def visit_statement_directive_with_expression(self, node: _Node, children: _Children) -> None:
         _at, name, _space, exp = children
         assert isinstance(name, str) and name and isinstance(exp, _expression.Any)
         self._flush_comment()
         self._statement_stream_processor.on_directive(
-            line_number=self.current_line_number, directive_name=name, associated_expression_value=exp
+            line_number=self._get_first_line_number(node), directive_name=name, associated_expression_value=exp
         )
 
-    def visit_statement_directive_without_expression(self, _n: _Node, children: _Children) -> None:
+    def visit_statement_directive_without_expression(self, node: _Node, children: _Children) -> None:
         _at, name = children
         assert isinstance(name, str) and name
         self._flush_comment()
         self._statement_stream_processor.on_directive(
-            line_number=self.current_line_number, directive_name=name, associated_expression_value=None
+            line_number=self._get_first_line_number(node), directive_name=name, associated_expression_value=None
         )
 
     def visit_identifier(self, node: _Node, _c: _Children) -> str:
@@ -443,9 +447,11 @@ class _ParseTreeProcessor(parsimonious.NodeVisitor):
         return _expression.Boolean(False)
 
     def visit_literal_string_single_quoted(self, node: _Node, _c: _Children) -> _expression.String:
+        self._current_line_number += node.text.count("\n")  # The grammar permits raw line breaks inside string literals.
         return _parse_string_literal(node.text)
 
     def visit_literal_string_double_quoted(self, node: _Node, _c: _Children) -> _expression.String:
+        self._current_line_number += node.text.count("\n")  # The grammar permits raw line breaks inside string literals.
         return _parse_string_literal(node.text)
 
 
